@@ -375,7 +375,7 @@ package mint
 //@   tags C20
 //@   safety C06 C20
 //@   requires c.items != nil
-//@   modifies *c
+//@   modifies *c, map(c.items)
 //@   ensures @sameref [C20] c.items == old(c.items)
 //@   ensures @hit [C20] r1 <==> old(key in c.items)
 //@   ensures @shrink [C20] forall k Str :: (k in c.items) ==> old(k in c.items) && c.items[k] == old(c.items[k])
@@ -386,7 +386,7 @@ package mint
 //@   tags C20
 //@   safety C06 C20
 //@   requires c.items != nil
-//@   modifies *c
+//@   modifies *c, map(c.items)
 //@   ensures @sameref [C20] c.items == old(c.items)
 //@   ensures @stored [C20] (key in c.items) ==> (old(key in c.items) && c.items[key] == old(c.items[key])) || c.items[key].value == item
 //@   ensures @nodelete [C20] old(key in c.items) ==> (key in c.items)
